@@ -246,6 +246,7 @@ package dht
 //@   callsite (net.PacketConn).WriteTo not-to-a-blocked-address: s.ipBlockList == nil || !recorded("blocked")
 //@   callsite (net.PacketConn).WriteTo rated-sends-hold-a-token: rate ==> (wait ? recorded("waiterr") == nil : recorded("allowed"))
 //@   callsite (net.PacketConn).WriteTo the-bytes-to-the-node: $p == b && $addr == node.Raw()
+//@   callsite (*golang.org/x/time/rate.Limiter).AllowN refund-only-what-was-taken: rate && $n == -1
 //@   ensures one-write-at-most: count("call:(net.PacketConn).WriteTo") <= 1
 //@   ensures wrote-means-written: wrote ==> count("call:(net.PacketConn).WriteTo") == 1
 //@   ensures closed-means-error: recorded("closed") ==> err != nil && count("call:(net.PacketConn).WriteTo") == 0
@@ -294,3 +295,61 @@ package dht
 //@   ensures queries-do-not-touch-pending-transactions: d.Y == "q" ==> count("call:(*dht/transactions.Dispatcher[S]).Pop") == 0 && count("go:(*dht.transaction).handleResponse") == 0
 //@   ensures nothing-is-sent-for-non-queries: d.Y != "q" ==> count("call:(*dht.Server).handleQuery") == 0
 //@   ensures one-completion-at-most: count("go:(*dht.transaction).handleResponse") <= 1 && count("go:(*dht.transaction).handleResponse") == count("call:(*dht/transactions.Dispatcher[S]).Pop")
+
+// ---- C14 / C20: sending a query ----
+//@ func dht.transactionSender@send
+//@   trusted
+//@ func dht.transactionSender@resendDelay
+//@   trusted
+//@ func dht.transactionSender
+//@   arith int
+//@   requires callbacks: send != nil && resendDelay != nil && ctx != nil
+//@   ensures bounded-sends: count("call:dynamic:send") <= (maxSends > 0 ? math(maxSends) : 0)
+//@   ensures all-sends-made-on-success: result == nil && maxSends >= 0 ==> count("call:dynamic:send") == math(maxSends)
+//@   loop 1
+//@     invariant sends-counted: 0 <= sends && count("call:dynamic:send") == math(sends)
+//@     invariant bounded: maxSends > 0 ==> sends <= maxSends
+//@     invariant none-when-not-asked: maxSends <= 0 ==> sends == 0
+
+// the send closure of a query: one writeToNode per call, to the queried address, with the rate-limiting the caller asked for
+//@ func (*dht.Server).transactionQuerySender$1
+//@   requires sendable: sendable(s) && addr != nil && writes != nil
+//@   modifies *writes
+//@   callsite (*dht.Server).writeToNode the-query-bytes-to-the-queried-address: $b == b && $node == addr
+//@   callsite (*dht.Server).writeToNode rated-unless-opted-out: $rate == (!rateLimiting.NotAny && (*writes != 0 || !rateLimiting.NotFirst))
+//@   callsite (*dht.Server).writeToNode waits-as-configured: $wait == (*writes == 0 ? !rateLimiting.NoWaitFirst : rateLimiting.WaitOnRetries)
+//@   ensures one-write-attempt: count("call:(*dht.Server).writeToNode") == 1
+//@   ensures writes-counted: *writes == old(*writes) || *writes == old(*writes) + 1
+
+//@ func (*dht.Server).transactionQuerySender
+//@   requires sendable: sendable(s) && addr != nil && writes != nil && sendCtx != nil && s.resendDelay != nil
+//@   modifies *writes
+//@   callsite dht.transactionSender bounded-by-the-configured-tries: $maxSends == numTries && $ctx == sendCtx
+//@   ensures always-an-error: result != nil
+
+// ---- C07 / C14: an outbound query ----
+//@ func (*dht.Server).nextTransactionID
+//@   trusted
+//@   option records tid
+//@ func (*dht.Server).addTransaction
+//@   requires nonnil: s != nil
+//@   requires fresh-key: !(k in s.transactions.txns)
+//@   modifies s.transactions.txns, s.transactions
+//@   ensures registered: (k in s.transactions.txns) && s.transactions.txns[k] == t
+//@   ensures others-untouched: forall o transactions.Key :: o != k ==> (o in s.transactions.txns) == old(o in s.transactions.txns) && s.transactions.txns[o] == old(s.transactions.txns[o])
+//@ func (*dht.Server).deleteTransaction
+//@   requires nonnil: s != nil
+//@   modifies s.transactions.txns
+//@   ensures removed: !(k in s.transactions.txns)
+//@   ensures others-untouched: forall o transactions.Key :: o != k ==> (o in s.transactions.txns) == old(o in s.transactions.txns) && s.transactions.txns[o] == old(s.transactions.txns[o])
+
+//@ func (*dht.Server).Query@cancelSend
+//@   trusted
+//@ func (*dht.Server).Query
+//@   requires nonnil: s != nil && addr != nil && ctx != nil
+//@   requires unlocked: !held(s.mu)
+//@   modifies *
+//@   callsite (*dht.Server).addTransaction registered-under-the-lock-before-sending: wheld(s.mu) && $k.RemoteAddr == addr.String() && $k.T == recorded("tid") && count("go:(*dht.Server).Query$3") == 0
+//@   callsite (*dht.Server).deleteTransaction removed-under-the-lock: wheld(s.mu) && $k.RemoteAddr == addr.String() && $k.T == recorded("tid") && count("call:dynamic:cancelSend") == 1
+//@   ensures registered-once-removed-once: count("call:(*dht.Server).addTransaction") == 1 && count("call:(*dht.Server).deleteTransaction") == 1
+//@   ensures one-sender-joined: count("go:(*dht.Server).Query$3") == 1 && count("chan:recv") >= 1
